@@ -4,6 +4,7 @@ import (
 	"sync"
 
 	"github.com/refraction-networking/uquic/internal/protocol"
+	"github.com/refraction-networking/uquic/internal/verifhook"
 )
 
 type packetBuffer struct {
@@ -56,10 +57,12 @@ func (b *packetBuffer) Cap() protocol.ByteCount { return protocol.ByteCount(cap(
 
 func (b *packetBuffer) putBack() {
 	if cap(b.Data) == protocol.MaxPacketBufferSize {
+		verifhook.PoolPut("packetbuffer", b, b.Data)
 		bufferPool.Put(b)
 		return
 	}
 	if cap(b.Data) == protocol.MaxLargePacketBufferSize {
+		verifhook.PoolPut("largepacketbuffer", b, b.Data)
 		largeBufferPool.Put(b)
 		return
 	}
@@ -70,6 +73,7 @@ var bufferPool, largeBufferPool sync.Pool
 
 func getPacketBuffer() *packetBuffer {
 	buf := bufferPool.Get().(*packetBuffer)
+	verifhook.PoolGet("packetbuffer", buf)
 	buf.refCount = 1
 	buf.Data = buf.Data[:0]
 	return buf
@@ -77,6 +81,7 @@ func getPacketBuffer() *packetBuffer {
 
 func getLargePacketBuffer() *packetBuffer {
 	buf := largeBufferPool.Get().(*packetBuffer)
+	verifhook.PoolGet("largepacketbuffer", buf)
 	buf.refCount = 1
 	buf.Data = buf.Data[:0]
 	return buf
